@@ -132,9 +132,10 @@ Print Assumptions set_zero_partial.
 
 (* ... and is FALSE in the direct regime (fewer than THRESHOLD_SMALL entries, or a non-floating
    dtype) as long as the direct body is the single unguarded assignment
-   out.data[:] = a*x1.data + b*x2.data  (is_guarded direct_body = false, the CURRENT source):
+   out.data[:] = a*x1.data + b*x2.data  (is_guarded direct_body = false: the source BEFORE the
+   fix d3867d7; vacuous for the current source, kept as a statement about the old variant):
    0*y + 0*y is evaluated and NaN / inf in y survive set_zero().
-   Recorded finding C01/set_zero-nan-survives-direct. *)
+   Finding C01/set_zero-nan-survives-direct (fixed). *)
 Theorem set_zero_direct_refuted :
   forall (T : Type) (N : Num T) (bi : blasinfo),
   is_guarded direct_body = false ->
@@ -146,8 +147,8 @@ Proof. exact @set_zero_direct_counterexample. Qed.
 (* which variant the regenerated source is: *)
 Example direct_body_variant : is_guarded direct_body = false \/ is_guarded direct_body = true.
 Proof. vm_compute. first [left; reflexivity | right; reflexivity]. Qed.
-(* once the direct body tests its scalars (proposed_fixes/C01_direct-zero-scalars.diff) the full
-   statement holds in the direct regime too; vacuous for the current source *)
+(* the direct body of the current source tests its scalars (fix d3867d7): the full statement
+   holds in the direct regime too -- this is the LIVE theorem *)
 Theorem set_zero_direct_repaired :
   forall (T : Type) (N : Num T) (F : NumField T) (bi : blasinfo) (i : nat) (s : store (option T)),
   is_guarded direct_body = true ->
@@ -170,7 +171,40 @@ Print Assumptions set_zero_direct_refuted.
    T1 (induction on the nested space + induction on the leaf sequence): at EVERY
    leaf the output holds a*x1 + b*x2 of the INITIAL operand leaves (converted to
    the leaf dtype for non-floating leaves); nothing but the leaves of out changes. *)
-From Verif Require Import C01.ModelSpace C01.ProofsSpace.
+From Verif Require Import Gen.SpaceOps C01.ModelSpace C01.ProofsSpace.
+
+(* The wrapper layers, REGENERATED by translate/space_ops.py into Gen/SpaceOps.v:
+   NumpyTensorSpace._lincomb/_multiply/_divide, ProductSpace._lincomb/_multiply/_divide,
+   DiscretizedSpace._lincomb/_multiply/_divide, LinearSpace.lincomb/multiply/divide and the
+   LinearSpaceElement operators (as programs).  Facts about the CURRENT source on which the
+   theorems below depend: every layer passes (a, x1, b, x2, out) / (x1, x2, out) through
+   unchanged (lincomb(a, x1) reaches _lincomb as (a, x1, 0, x1, out)); the scalars are not
+   converted on the way (any other statement in LinearSpace.lincomb fails the translator); the
+   tensor ufunc calls are np.multiply / np.divide of (x1, x2) with out= and no other keyword. *)
+Theorem wrapper_layers_pass_arguments_through :
+  tensor_lincomb_call = (SA, X1, SB, X2, OUT) /\ pspace_lincomb_call = (SA, X1, SB, X2, OUT)
+  /\ discr_lincomb_call = (SA, X1, SB, X2, OUT)
+  /\ tensor_multiply_call = (UMul, X1, X2, OUT) /\ tensor_divide_call = (UDiv, X1, X2, OUT)
+  /\ pspace_multiply_call = (X1, X2, OUT) /\ pspace_divide_call = (X1, X2, OUT)
+  /\ discr_multiply_call = (X1, X2, OUT) /\ discr_divide_call = (X1, X2, OUT)
+  /\ space_lincomb1_call = (SA, X1, SK 0, X1, OUT) /\ space_lincomb2_call = (SA, X1, SB, X2, OUT)
+  /\ space_multiply_call = (X1, X2, OUT) /\ space_divide_call = (X1, X2, OUT).
+Proof. exact calls_are_identity. Qed.
+
+(* multiply / divide write every entry of out from the operands, whatever out held before --
+   at ANY carrier, in particular the poisoned one (old contents None everywhere) *)
+Theorem multiply_ignores_old_out :
+  forall (T : Type) (N : Num T) (x1 x2 out : nat) (s : store T) (garbage : list T),
+  out <> x1 -> out <> x2 ->
+  exists s', multiply_impl x1 x2 out (upd s out garbage) = Ok s'
+    /\ s' out = vmul (s x1) (s x2) /\ forall j, j <> out -> s' j = s j.
+Proof. exact @multiply_old_out. Qed.
+Theorem divide_ignores_old_out :
+  forall (T : Type) (N : Num T) (x1 x2 out : nat) (s : store T) (garbage : list T),
+  out <> x1 -> out <> x2 ->
+  exists s', divide_impl x1 x2 out (upd s out garbage) = Ok s'
+    /\ s' out = vdiv (s x1) (s x2) /\ forall j, j <> out -> s' j = s j.
+Proof. exact @divide_old_out. Qed.
 
 Theorem pspace_lincomb_correct :
   forall (T : Type) (N : Num T) (F : NumField T)
@@ -246,8 +280,8 @@ Qed.
 
 (* ---------------------------------------------------------------------------
    T1  the public operators of LinearSpaceElement on a tensor / discretized space
-   (floating dtype): each program (C01/ModelSpace.v, a transcription of
-   odl/set/space.py tied to the code by the correspondence) returns, its output
+   (floating dtype): each program (w_add := run_w prog_add_elem ..., the programs prog_* being
+   REGENERATED from odl/set/space.py into Gen/SpaceOps.v and interpreted by C01/ModelSpace.v) returns, its output
    holds the entry-wise specification, and every other buffer -- in particular the
    operand that is not the output -- is unchanged.  [yields m s out spec] :=
    exists s', m s = Ok s' /\ s' out = spec /\ forall j <> out, s' j = s j.
@@ -310,11 +344,11 @@ Theorem op_rsub_scalar : forall (c : T) (x t : nat) (s : store T),
   yields (w_rsub_scalar flg bdtf icast sp (Leaf x) c (Leaf t)) s t (map (fun e => c - e) (s x)).
 Proof. exact (rsub_scalar_spec flg bdtf icast). Qed.
 Theorem op_mul : forall (x y t : nat) (s : store T),
-  yields (w_mul sp (Leaf x) (Leaf y) (Leaf t)) s t (vmul (s y) (s x)).
-Proof. exact mul_spec. Qed.
+  yields (w_mul flg bdtf icast sp (Leaf x) (Leaf y) (Leaf t)) s t (vmul (s y) (s x)).
+Proof. exact (mul_spec flg bdtf icast). Qed.
 Theorem op_truediv : forall (x y t : nat) (s : store T),
-  yields (w_truediv sp (Leaf x) (Leaf y) (Leaf t)) s t (vdiv (s x) (s y)).
-Proof. exact truediv_spec. Qed.
+  yields (w_truediv flg bdtf icast sp (Leaf x) (Leaf y) (Leaf t)) s t (vdiv (s x) (s y)).
+Proof. exact (truediv_spec flg bdtf icast). Qed.
 Theorem op_rsub : forall (x y t : nat) (s : store T),
   length (s y) = length (s x) -> length (s t) = length (s y) ->
   yields (w_rsub flg bdtf icast sp (Leaf x) (Leaf y) (Leaf t)) s t (vsub (s y) (s x)).
@@ -330,15 +364,33 @@ Theorem op_iadd_scalar : forall (c : T) (x t : nat) (s : store T),
     /\ s' x = map (fun e => e + c) (s x)
     /\ forall j, j <> x -> j <> t -> s' j = s j.
 Proof. exact (iadd_scalar_spec flg bdtf icast). Qed.
+Theorem op_isub_scalar : forall (c : T) (x t : nat) (s : store T),
+  t <> x -> length (s t) = length (s x) ->
+  exists s', w_isub_scalar flg bdtf icast sp (Leaf x) c (Leaf t) s = Ok s'
+    /\ s' x = map (fun e => e - c) (s x)
+    /\ forall j, j <> x -> j <> t -> s' j = s j.
+Proof. exact (isub_scalar_spec flg bdtf icast). Qed.
+Theorem op_itruediv_scalar : forall (c : T) (x : nat) (s : store T),
+  c <> nzero ->
+  yields (w_itruediv_scalar flg bdtf icast sp (Leaf x) c) s x (map (fun e => e / c) (s x)).
+Proof. exact (itruediv_scalar_spec flg bdtf icast). Qed.
+(* c / x:  tmp = one(); lincomb(c, tmp, out=tmp); divide(tmp, x, out=tmp) *)
+Theorem op_rtruediv_scalar : forall (c : T) (x t : nat) (s : store T),
+  t <> x -> length (s t) = length (s x) ->
+  yields (w_rtruediv_scalar flg bdtf icast sp (Leaf x) c (Leaf t)) s t (map (fun e => c / e) (s x)).
+Proof. exact (rtruediv_scalar_spec flg bdtf icast). Qed.
+Theorem op_set_zero : forall (x : nat) (s : store T),
+  yields (w_set_zero flg bdtf icast sp (Leaf x)) s x (map (fun _ => nzero) (s x)).
+Proof. exact (set_zero_spec flg bdtf icast). Qed.
 Theorem op_imul : forall (x y : nat) (s : store T),
-  yields (w_imul sp (Leaf x) (Leaf y)) s x (vmul (s y) (s x)).
-Proof. exact imul_spec. Qed.
+  yields (w_imul flg bdtf icast sp (Leaf x) (Leaf y)) s x (vmul (s y) (s x)).
+Proof. exact (imul_spec flg bdtf icast). Qed.
 Theorem op_itruediv : forall (x y : nat) (s : store T),
-  yields (w_itruediv sp (Leaf x) (Leaf y)) s x (vdiv (s x) (s y)).
-Proof. exact itruediv_spec. Qed.
+  yields (w_itruediv flg bdtf icast sp (Leaf x) (Leaf y)) s x (vdiv (s x) (s y)).
+Proof. exact (itruediv_spec flg bdtf icast). Qed.
 Theorem op_rtruediv : forall (x y t : nat) (s : store T),
-  yields (w_rtruediv sp (Leaf x) (Leaf y) (Leaf t)) s t (vdiv (s y) (s x)).
-Proof. exact rtruediv_spec. Qed.
+  yields (w_rtruediv flg bdtf icast sp (Leaf x) (Leaf y) (Leaf t)) s t (vdiv (s y) (s x)).
+Proof. exact (rtruediv_spec flg bdtf icast). Qed.
 End Operators.
 Print Assumptions op_rsub_scalar.
 Print Assumptions op_add_scalar.
@@ -404,3 +456,31 @@ Theorem nested_iadd :
     /\ (forall j, ~ In j (flat x) -> s' j = s j).
 Proof. exact @nested_iadd_correct. Qed.
 Print Assumptions nested_iadd.
+
+(* TRANSFER  the model of NumpyTensorSpace._lincomb executed at Q by the correspondence shards
+   is the rational restriction of the model the theorems above speak about (the instance R):
+   Q2R commutes with the interpreter of the regenerated syntax -- every test takes the same
+   branch, every division is by a scalar tested nonzero (checked on the regenerated fallback
+   bodies and direct body).  [sim sq sr] := forall j, sr j = map Q2R (sq j); [osim] relates the
+   outcomes (same constructor, related stores). *)
+From Coq Require Import QArith Qreals.
+From Verif Require Import C01.Transfer.
+Theorem lincomb_executed_model_is_rational_restriction :
+  forall (castq : Q -> Q) (castr : R -> R) (floating blas_dtype : bool) (flags : list (bool * bool))
+         (size : Z) (a b : Q) (x1 x2 out : nat) (sq : store Q) (sr : store R),
+  (forall q, Q2R (castq q) = castr (Q2R q)) -> sim sq sr ->
+  osim (lincomb_impl_sz castq floating blas_dtype flags size a x1 b x2 out sq)
+       (lincomb_impl_sz castr floating blas_dtype flags size (Q2R a) x1 (Q2R b) x2 out sr).
+Proof. exact lincomb_impl_transfer. Qed.
+Print Assumptions lincomb_executed_model_is_rational_restriction.
+
+(* the same for the space level: arbitrarily nested product spaces and EVERY regenerated operator
+   program (x + y, x -= c, c / x, ...; [l] ranges over all programs) -- division is total on both
+   sides, so no side condition *)
+Theorem operator_programs_executed_model_is_rational_restriction :
+  forall (flg : nat -> bool * bool) (bdtf : nat -> bool) (icq : Q -> Q) (icr : R -> R),
+  (forall q, Q2R (icq q) = icr (Q2R q)) ->
+  forall (sp : space) (l : list wstmt) (self other : elem) (c : Q) (tmp : elem) (sq : store Q) (sr : store R),
+  sim sq sr ->
+  osim (run_w flg bdtf icq sp l self other c tmp sq) (run_w flg bdtf icr sp l self other (Q2R c) tmp sr).
+Proof. exact run_w_transfer. Qed.
